@@ -1,50 +1,24 @@
-(** C35 — the statements of Properties.v: delivery for all schedules (partial:
-    no peer answers with a block of another height), the single-goroutine
-    core, soundness of what is handed over, and the refutations with their
-    witness schedules. *)
+(** C35 — the statements of Properties.v for the repaired download code:
+    delivery for all schedules (at most 50 given peers: the retry bound),
+    soundness of everything handed over, progress and termination of both
+    phases, "not asked again" within phase one for all schedules, the
+    single-goroutine core, and the refutation that remains (the second phase
+    asks again) with its witness. *)
 From Coq Require Import List ZArith NArith Bool Arith Lia Permutation.
 From C33 Require Import Lib.Harness C35.Model C35.Spec C35.ProofsTerm C35.ProofsSolo C35.ProofsSim
-     C35.ProofsSingle C35.ProofsMulti.
+     C35.ProofsSingle C35.ProofsMulti C35.ProofsReask.
 Import ListNotations.
 Open Scope nat_scope.
-
-(** * Guards (boolean) *)
-
-(** no given peer answers a height of the range with a block of another height *)
-Definition no_wrong_height (c : config) : bool := forallb (no_wrong_at c) (heights c).
-
-(** [no_stall c] (ProofsMulti): no given peer stays silent for a height of the range *)
-Definition delivery_guard (c : config) : bool := no_wrong_height c && no_stall c && few_peers c.
-
-Definition one_height (c : config) : bool := length (heights c) =? 1.
-
-Definition reask_guard (c : config) : bool := one_height c && no_stall c.
 
 (** * Full-strength statements *)
 
 Definition complete_run (c : config) (sched : list event) (order : list Z) : Prop :=
   all_done (phase_one c sched) = true /\ Permutation order (failed_heights (phase_one c sched)).
 
-Definition delivers_if_servable_full : Prop :=
-  forall c sched order, complete_run c sched order -> spec_delivers c (task_log c sched order) = true.
-
-Definition phase_one_delivers_full : Prop :=
-  forall c sched, all_done (phase_one c sched) = true ->
-                  spec_delivers c (rev (s_log (phase_one c sched))) = true.
-
-Definition failed_peer_not_reasked_full : Prop :=
-  forall c sched, spec_no_reask_phase_one c (rev (s_log (phase_one c sched))) = true.
-
-Definition no_deadlock_full : Prop :=
-  forall c sched, all_done (phase_one c sched) = false ->
-                  exists e s', step c (init_job c) (phase_one c sched) e = Some s'.
-
-Definition second_phase_terminates_full : Prop := forall c h, all_done (recheck c h) = true.
-
 Definition not_reasked_in_task_full : Prop :=
   forall c sched order, complete_run c sched order -> spec_no_reask_task c (task_log c sched order) = true.
 
-(** * Delivery under the guard, all schedules *)
+(** * Delivery, all schedules *)
 
 Lemma in_task_log_one c sched order o :
   In o (rev (s_log (phase_one c sched))) -> In o (task_log c sched order).
@@ -63,33 +37,27 @@ Proof.
   unfold delivered. apply in_flat_map. exists (ODeliver h p). split; [exact H|left; reflexivity].
 Qed.
 
-Lemma delivers_partial c sched order :
-  delivery_guard c = true -> complete_run c sched order ->
+Lemma delivers c sched order :
+  few_peers c = true -> complete_run c sched order ->
   spec_delivers c (task_log c sched order) = true.
 Proof.
-  intros Hg [Hd Hperm]. unfold delivery_guard in Hg. apply andb_true_iff in Hg. destruct Hg as [Hg Hfew].
-  apply andb_true_iff in Hg. destruct Hg as [Hnw Hns].
+  intros Hfew [Hd Hperm].
   unfold spec_delivers. apply forallb_forall. intros h Hh.
   destruct (servable c h) eqn:Hs; [simpl|reflexivity].
   pose proof (phase_one_inv c sched) as HI.
   destruct (height_goroutine c _ h HI Hh) as [g [Hg Hgh]].
   destruct (all_done_nth _ g Hd Hg) as [b Hpc].
-  assert (Hnwh : no_wrong_at c h = true) by (apply (proj1 (forallb_forall _ _) Hnw h Hh)).
   destruct b.
   - (* delivered in phase one *)
     assert (Hho : handed_over (g_pc (nth g (s_gs (phase_one c sched)) dummy_g)) = true)
       by (rewrite Hpc; reflexivity).
-    destruct (inv_ok _ _ _ HI g Hho) as [p [a [Hp [Ha Hin]]]]. rewrite Hgh in *.
-    assert (a = None).
-    { unfold no_wrong_at in Hnwh. pose proof (proj1 (forallb_forall _ _) Hnwh p Hp) as Hw. cbv beta in Hw.
-      destruct (c_beh c p h); simpl in Ha; try discriminate; inversion Ha; reflexivity. }
-    subst a. simpl in Hin. apply (delivered_in _ h p).
+    destruct (inv_ok _ _ _ HI g Hho) as [p [Hp [Ha Hin]]]. rewrite Hgh in *.
+    apply (delivered_in _ h p).
     apply in_task_log_one. apply in_rev in Hin. exact Hin.
   - (* failed in phase one: downloaded again in phase two *)
     pose proof (failed_in _ g Hg Hpc) as Hf. rewrite Hgh in Hf.
     apply (Permutation_in _ (Permutation_sym Hperm)) in Hf.
-    assert (Hnsh : no_stall_at c h = true) by (apply (proj1 (forallb_forall _ _) Hns h Hh)).
-    destruct (recheck_delivers c h Hnsh Hs Hnwh Hfew) as [_ [p Hp]].
+    destruct (recheck_delivers c h Hs Hfew) as [_ [p Hp]].
     apply (delivered_in _ h p). apply (in_task_log_two c sched order h _ Hf Hp).
 Qed.
 
@@ -118,84 +86,40 @@ Proof.
   apply in_map. apply filter_In in HG. exact (proj1 HG).
 Qed.
 
-Lemma sound_partial c sched order :
-  no_wrong_height c = true -> complete_run c sched order ->
-  spec_sound c (task_log c sched order) = true.
+Lemma sound c sched order :
+  complete_run c sched order -> spec_sound c (task_log c sched order) = true.
 Proof.
-  intros Hnw [_ Hperm]. unfold spec_sound. apply forallb_forall. intros o Ho.
+  intros [_ Hperm]. unfold spec_sound. apply forallb_forall. intros o Ho.
   assert (Hord : forall h, In h order -> In h (heights c)).
   { intros h Hh. apply (failed_heights_in c sched). apply (Permutation_in _ Hperm Hh). }
   pose proof (task_log_ok c sched order o Hord Ho) as Hok.
   destruct o as [l|h' p|bh p]; cbn; auto.
-  destruct Hok as [h [Hh [Hp [He [a [Ha Hbh]]]]]].
-  assert (Hnwh : no_wrong_at c h = true) by (apply (proj1 (forallb_forall _ _) Hnw h Hh)).
-  unfold no_wrong_at in Hnwh. pose proof (proj1 (forallb_forall _ _) Hnwh p Hp) as Hw. cbv beta in Hw.
-  destruct (c_beh c p h) eqn:Hb; simpl in Ha; try discriminate.
-  inversion Ha; subst a. simpl in Hbh. subst bh.
-  rewrite (heights_in_range c h Hh). unfold serves. rewrite He, Hb. reflexivity.
+  destruct Hok as [Hh [Hp [He Ha]]].
+  rewrite (heights_in_range c bh Hh). unfold serves. rewrite He.
+  destruct (c_beh c p bh); simpl in Ha; try discriminate. reflexivity.
 Qed.
 
-(** * One height: the un-aliased core *)
-
-Lemma one_height_inv c : one_height c = true -> exists h, heights c = [h].
-Proof.
-  unfold one_height. intro H. apply Nat.eqb_eq in H.
-  destruct (heights c) as [|h [|h2 l]]; simpl in H; try discriminate. exists h. reflexivity.
-Qed.
-
-Lemma solo0_no_init c h o :
-  In o (fst (solo0 c h)) -> match o with OInit _ => False | _ => True end.
-Proof.
-  unfold solo0. intro Ho.
-  pose proof (solo_deliveries c (init_job c) (ntasks c) h 52 (view0 c) 0 o Ho) as H.
-  destruct o; auto.
-Qed.
-
-Lemma phase_one_part_no_init : forall l seen,
-  (forall o, In o l -> match o with OInit _ => False | _ => True end) -> phase_one_part seen l = l.
-Proof.
-  induction l as [|o l IH]; intros seen H; [reflexivity|].
-  destruct o as [x|h' p|bh p]; simpl.
-  - exfalso. apply (H (OInit x)). left. reflexivity.
-  - rewrite IH; auto. intros o Ho. apply H. right. exact Ho.
-  - rewrite IH; auto. intros o Ho. apply H. right. exact Ho.
-Qed.
-
-Lemma phase_one_part_init_log (L : list obs) c :
-  (forall o, In o L -> match o with OInit _ => False | _ => True end) ->
-  phase_one_part false (init_log c ++ L) = init_log c ++ L.
-Proof.
-  intro Hs. unfold init_log. destruct (init_job c); cbn [app phase_one_part];
-    rewrite (phase_one_part_no_init _ _ Hs); reflexivity.
-Qed.
-
-Lemma phase_one_part_single c h :
-  no_stall_at c h = true -> phase_one_part false (recheck_log c h) = recheck_log c h.
-Proof.
-  intro Hns. rewrite (recheck_log_solo c h Hns). apply phase_one_part_init_log. apply solo0_no_init.
-Qed.
+(** * One height: the single goroutine *)
 
 Lemma single_goroutine_correct c h sched :
   heights c = [h] -> all_done (phase_one c sched) = true ->
   let tr := rev (s_log (phase_one c sched)) in
-  (no_stall_at c h = true -> distinct_peers c = true -> no_reask_from c [] tr = true)
-  /\ (no_stall_at c h = true -> no_wrong_at c h = true -> few_peers c = true ->
-      memZ h (delivered tr) = servable c h)
+  (distinct_peers c = true -> no_reask_from c [] tr = true)
+  /\ (few_peers c = true -> memZ h (delivered tr) = servable c h)
   /\ (forall o, In o tr -> log_ok c o).
 Proof.
   intros Hh Hd. cbn zeta. rewrite (single_height_phase_one c h sched Hh Hd).
   change (rev (s_log (recheck c h))) with (recheck_log c h).
   assert (Hin : In h (heights c)) by (rewrite Hh; left; reflexivity).
   split; [apply recheck_no_reask|]. split.
-  - intros Hns Hnw Hfew. destruct (servable c h) eqn:Hs.
-    + destruct (recheck_delivers c h Hns Hs Hnw Hfew) as [_ [p Hp]]. apply (delivered_in _ h p Hp).
+  - intros Hfew. destruct (servable c h) eqn:Hs.
+    + destruct (recheck_delivers c h Hs Hfew) as [_ [p Hp]]. apply (delivered_in _ h p Hp).
     + destruct (memZ h (delivered (recheck_log c h))) eqn:Hm; [|reflexivity]. exfalso.
       unfold memZ in Hm. apply existsb_exists in Hm. destruct Hm as [bh [Hbh Heq]].
       apply Z.eqb_eq in Heq. subst bh. unfold delivered in Hbh. apply in_flat_map in Hbh.
       destruct Hbh as [o [Ho Hbh]]. destruct o as [l|h' p|bh p]; try contradiction.
       destruct Hbh as [->|[]].
-      pose proof (recheck_events c h _ Hns Ho) as [Hp [He [a [Ha Hbh]]]].
-      unfold no_wrong_at in Hnw. pose proof (proj1 (forallb_forall _ _) Hnw p Hp) as Hw. cbv beta in Hw.
+      pose proof (recheck_events c h _ Ho) as [Hp [He [Ha Hbh]]].
       assert (Hsv : servable c h = true).
       { unfold servable. apply existsb_exists. exists p. split; [exact Hp|].
         unfold serves. rewrite He. destruct (c_beh c p h); simpl in Ha; try discriminate; reflexivity. }
@@ -203,98 +127,31 @@ Proof.
   - intros o Ho. apply (recheck_log_ok c h o Hin Ho).
 Qed.
 
-Lemma not_reasked_partial c sched :
-  reask_guard c = true -> all_done (phase_one c sched) = true ->
-  spec_no_reask_phase_one c (rev (s_log (phase_one c sched))) = true.
-Proof.
-  intros Hg Hd. unfold reask_guard in Hg. apply andb_true_iff in Hg. destruct Hg as [H1 Hns].
-  destruct (one_height_inv c H1) as [h Hh].
-  assert (Hnsh : no_stall_at c h = true).
-  { apply (proj1 (forallb_forall _ _) Hns h). rewrite Hh. left. reflexivity. }
-  unfold spec_no_reask_phase_one. destruct (distinct_peers c) eqn:Hdp; [simpl|reflexivity].
-  rewrite (single_height_phase_one c h sched Hh Hd).
-  change (rev (s_log (recheck c h))) with (recheck_log c h).
-  rewrite (phase_one_part_single c h Hnsh). apply recheck_no_reask; assumption.
-Qed.
-
 (** * Progress *)
 
-Lemma no_deadlock_partial c sched :
-  no_stall c = true -> all_done (phase_one c sched) = false ->
+Lemma no_deadlock c sched :
+  all_done (phase_one c sched) = false ->
   exists e s', step c (init_job c) (phase_one c sched) e = Some s'.
-Proof.
-  intros Hns Hd. apply progress; [|exact Hd].
-  apply (inv_no_waiting c (heights c) _ (phase_one_inv c sched) Hns).
-Qed.
+Proof. apply progress. Qed.
 
-Lemma second_phase_terminates_partial c h :
-  no_stall_at c h = true -> all_done (recheck c h) = true.
+Lemma second_phase_terminates c h : all_done (recheck c h) = true.
 Proof. apply recheck_done. Qed.
+
+(** * Not asked again within the task, when no height fails in phase one *)
+
+Lemma not_reasked_in_task_partial c sched :
+  complete_run c sched [] -> spec_no_reask_task c (task_log c sched []) = true.
+Proof.
+  intros _. unfold spec_no_reask_task, task_log, phase_two_log. cbn [flat_map]. rewrite app_nil_r.
+  destruct (distinct_peers c) eqn:Hd; [simpl|reflexivity].
+  apply phase_one_no_reask. exact Hd.
+Qed.
 
 (** * Witnesses *)
 
 Definition tcfg (pids : list pid_entry) (adv : list Z) (beh : list (list resp)) (st en : Z) : config :=
   mkConfig pids [] (fun _ => 0%N) (fun p => nth p adv (-1)%Z)
            (fun p h => nth (Z.to_nat (h - st)) (nth p beh []) RRefuse) st en.
-
-(** peers P0 (height 1) and P1 (height 2); P0 refuses height 1, P1 refuses
-    height 2.  Goroutine 0 (height 1) removes P0 from the shared array and
-    picks P1, overwriting P1.Index with 0; goroutine 1 (height 2) then removes
-    index 0 of its own, longer view - which is P1 shifted one place to the
-    left - keeps the second copy of P1 and asks it again. *)
-Definition cfg_reask : config :=
-  tcfg [PPeer 0; PPeer 1] [1; 2]%Z [[RRefuse; ROk]; [ROk; RRefuse]] 1 2.
-Definition sched_reask : list event :=
-  [Sort 0; Pick 0; Sort 1; Pick 1;
-   Result 0; Release 0; Remove 0; Pick 0;
-   Result 1; Release 1; Remove 1; Pick 1].
-
-Lemma not_reasked_refuted : ~ failed_peer_not_reasked_full.
-Proof.
-  intro H. specialize (H cfg_reask sched_reask).
-  assert (E : spec_no_reask_phase_one cfg_reask (rev (s_log (phase_one cfg_reask sched_reask))) = false)
-    by (vm_compute; reflexivity).
-  rewrite E in H. clear E. discriminate H.
-Qed.
-
-(** P0 (height 1) refuses height 1, P1 (height 2) serves height 1 and refuses
-    height 2, P2 is too low for everything.  Goroutine 1 removes P1 (index 1)
-    from the shared array; goroutine 0 then removes P0 and is left with
-    [P2, P2]: height 1 fails in phase one although P1 serves it. *)
-Definition cfg_lost : config :=
-  tcfg [PPeer 0; PPeer 1; PPeer 2] [1; 2; 0]%Z [[RRefuse; ROk]; [ROk; RRefuse]; [ROk; ROk]] 1 2.
-Definition sched_lost : list event :=
-  [Sort 0; Pick 0; Sort 1; Pick 1;
-   Result 1; Release 1; Remove 1; Pick 1;
-   Result 0; Release 0; Remove 0; Pick 0]
-  ++ flat_map (fun _ => [Sleep 0; Pick 0; Sleep 1; Pick 1]) (seq 0 51).
-
-Lemma phase_one_delivers_refuted : ~ phase_one_delivers_full.
-Proof.
-  intro H. specialize (H cfg_lost sched_lost).
-  assert (Hd : all_done (phase_one cfg_lost sched_lost) = true) by (vm_compute; reflexivity).
-  specialize (H Hd).
-  assert (E : spec_delivers cfg_lost (rev (s_log (phase_one cfg_lost sched_lost))) = false)
-    by (vm_compute; reflexivity).
-  rewrite E in H. clear E. discriminate H.
-Qed.
-
-(** P0 answers the request for height 1 with a block of height 2; the healthy
-    P1 is never asked. *)
-Definition cfg_wrong : config := tcfg [PPeer 0; PPeer 1] [5; 5]%Z [[RWrong 2]; [ROk]] 1 1.
-Definition sched_wrong : list event := [Sort 0; Pick 0; Result 0; Release 0].
-
-Lemma delivers_refuted : ~ delivers_if_servable_full.
-Proof.
-  intro H. specialize (H cfg_wrong sched_wrong []).
-  assert (Hc : complete_run cfg_wrong sched_wrong []).
-  { split; [vm_compute; reflexivity|].
-    assert (E : failed_heights (phase_one cfg_wrong sched_wrong) = []) by (vm_compute; reflexivity).
-    rewrite E. apply perm_nil. }
-  specialize (H Hc).
-  assert (E : spec_delivers cfg_wrong (task_log cfg_wrong sched_wrong []) = false) by (vm_compute; reflexivity).
-  rewrite E in H. clear E. discriminate H.
-Qed.
 
 (** one refusing peer: asked in phase one, and again by checkTask *)
 Definition cfg_again : config := tcfg [PPeer 0] [5]%Z [[RRefuse]] 1 1.
@@ -313,46 +170,67 @@ Proof.
   rewrite E in H. clear E. discriminate H.
 Qed.
 
-(** P0 accepts the stream and never answers: the goroutine waits in ReadStream
-    for ever (the 10 s context only covers NewStream), the healthy P1 is never
-    asked and the task never returns. *)
-Definition cfg_stall : config := tcfg [PPeer 0; PPeer 1] [5; 5]%Z [[RStall]; [ROk]] 1 1.
-Definition sched_stall : list event := [Sort 0; Pick 0].
+(** * Non-vacuity and regression examples *)
 
-Lemma no_deadlock_refuted : ~ no_deadlock_full.
-Proof.
-  intro H. specialize (H cfg_stall sched_stall).
-  assert (Hd : all_done (phase_one cfg_stall sched_stall) = false) by (vm_compute; reflexivity).
-  destruct (H Hd) as [e [s' Hs]]. clear H Hd.
-  remember (phase_one cfg_stall sched_stall) as s eqn:E. vm_compute in E. subst s.
-  destruct e as [g|g|g|g|g|g]; destruct g as [|g]; vm_compute in Hs; discriminate Hs.
-Qed.
+(** the former aliasing witnesses (two heights, interleaved removals): every
+    servable height is now delivered in phase one and nobody is asked twice *)
+Definition cfg_reask : config :=
+  tcfg [PPeer 0; PPeer 1] [1; 2]%Z [[RRefuse; ROk]; [ROk; RRefuse]] 1 2.
+Definition sched_reask : list event :=
+  [Sort 0; Pick 0; Sort 1; Pick 1;
+   Result 0; Release 0; Remove 0; Pick 0;
+   Result 1; Release 1; Remove 1; Pick 1;
+   Result 0; Release 0]
+  ++ flat_map (fun _ => [Sleep 1; Pick 1]) (seq 0 51).
 
-Lemma second_phase_terminates_refuted : ~ second_phase_terminates_full.
-Proof.
-  intro H. specialize (H cfg_stall 1%Z).
-  assert (E : all_done (recheck cfg_stall 1%Z) = false) by (vm_compute; reflexivity).
-  rewrite E in H. discriminate H.
-Qed.
+Definition cfg_lost : config :=
+  tcfg [PPeer 0; PPeer 1; PPeer 2] [1; 2; 0]%Z [[RRefuse; ROk]; [ROk; RRefuse]; [ROk; ROk]] 1 2.
+Definition sched_lost : list event :=
+  [Sort 0; Pick 0; Sort 1; Pick 1;
+   Result 1; Release 1; Remove 1; Pick 1;
+   Result 0; Release 0; Remove 0; Pick 0;
+   Result 0; Release 0]
+  ++ flat_map (fun _ => [Sleep 1; Pick 1]) (seq 0 51).
 
-(** * Non-vacuity *)
-
-(** the guards hold for the aliasing witnesses: delivery is proved for them *)
-Example guard_on_lost : delivery_guard cfg_lost = true.
-Proof. vm_compute. reflexivity. Qed.
-
-Example lost_is_complete : complete_run cfg_lost sched_lost [1; 2]%Z.
+Example lost_is_complete : complete_run cfg_lost sched_lost [2]%Z.
 Proof.
   split; [vm_compute; reflexivity|].
-  assert (E : failed_heights (phase_one cfg_lost sched_lost) = [1; 2]%Z) by (vm_compute; reflexivity).
+  assert (E : failed_heights (phase_one cfg_lost sched_lost) = [2]%Z) by (vm_compute; reflexivity).
   rewrite E. apply Permutation_refl.
 Qed.
 
-(** ... and phase two is what saves height 1 there *)
-Example lost_recovered :
-  memZ 1 (delivered (rev (s_log (phase_one cfg_lost sched_lost)))) = false
-  /\ memZ 1 (delivered (task_log cfg_lost sched_lost [1; 2]%Z)) = true.
+Example lost_no_longer_lost :
+  few_peers cfg_lost = true /\ servable cfg_lost 1 = true /\ servable cfg_lost 2 = false
+  /\ rev (s_log (phase_one cfg_lost sched_lost))
+     = [OInit [0; 1; 2]; OReq 1%Z 0; OReq 2%Z 1; OReq 1%Z 1; ODeliver 1%Z 1].
+Proof. repeat split; vm_compute; reflexivity. Qed.
+
+Example reask_no_longer :
+  all_done (phase_one cfg_reask sched_reask) = true
+  /\ rev (s_log (phase_one cfg_reask sched_reask))
+     = [OInit [0; 1]; OReq 1%Z 0; OReq 2%Z 1; OReq 1%Z 1; ODeliver 1%Z 1].
 Proof. split; vm_compute; reflexivity. Qed.
+
+(** a wrong-height answer and a silent peer are failures like any other: the
+    healthy second peer is asked and the height is delivered *)
+Definition cfg_wrong : config := tcfg [PPeer 0; PPeer 1] [5; 5]%Z [[RWrong 2]; [ROk]] 1 1.
+Definition cfg_stall : config := tcfg [PPeer 0; PPeer 1] [5; 5]%Z [[RStall]; [ROk]] 1 1.
+Definition sched_two : list event :=
+  [Sort 0; Pick 0; Result 0; Release 0; Remove 0; Pick 0; Result 0; Release 0].
+
+Example wrong_and_stall_tolerated :
+  complete_run cfg_wrong sched_two [] /\ complete_run cfg_stall sched_two []
+  /\ task_log cfg_wrong sched_two [] = [OInit [0; 1]; OReq 1%Z 0; OReq 1%Z 1; ODeliver 1%Z 1]
+  /\ task_log cfg_stall sched_two [] = [OInit [0; 1]; OReq 1%Z 0; OReq 1%Z 1; ODeliver 1%Z 1].
+Proof.
+  split; [|split; [|split; vm_compute; reflexivity]].
+  - split; [vm_compute; reflexivity|].
+    assert (E : failed_heights (phase_one cfg_wrong sched_two) = []) by (vm_compute; reflexivity).
+    rewrite E. apply perm_nil.
+  - split; [vm_compute; reflexivity|].
+    assert (E : failed_heights (phase_one cfg_stall sched_two) = []) by (vm_compute; reflexivity).
+    rewrite E. apply perm_nil.
+Qed.
 
 Definition cfg_single : config :=
   tcfg [PPeer 0; PPeer 1; PPeer 2] [9; 0; 9]%Z [[RMalformed]; [ROk]; [ROk]] 3 3.
@@ -361,12 +239,29 @@ Definition sched_single : list event :=
 
 Example single_hypotheses :
   heights cfg_single = [3%Z] /\ all_done (phase_one cfg_single sched_single) = true
-  /\ distinct_peers cfg_single = true /\ no_wrong_at cfg_single 3 = true /\ few_peers cfg_single = true
-  /\ servable cfg_single 3 = true /\ reask_guard cfg_single = true /\ no_stall_at cfg_single 3 = true
+  /\ distinct_peers cfg_single = true /\ few_peers cfg_single = true
+  /\ servable cfg_single 3 = true
   /\ rev (s_log (phase_one cfg_single sched_single))
-     = [OInit [0; 1; 2]; OReq 3 0; OReq 3 2; ODeliver 3 2].
+     = [OInit [0; 1; 2]; OReq 3%Z 0; OReq 3%Z 2; ODeliver 3%Z 2].
+Proof. repeat split; vm_compute; reflexivity. Qed.
+
+(** the guard [few_peers] cannot be dropped: the retry bound of downloadBlock
+    is 50 in both phases.  51 task entries, the first 50 refuse: the servable
+    height is asked 50 times in phase one, 50 times in phase two, and is not
+    delivered. *)
+Definition cfg_many : config :=
+  mkConfig (map PPeer (seq 0 51)) [] (fun _ => 0%N) (fun _ => 5%Z)
+           (fun p _ => if p =? 50 then ROk else RRefuse) 1 1.
+Definition sched_many : list event :=
+  Sort 0 :: flat_map (fun _ => [Pick 0; Result 0; Release 0; Remove 0]) (seq 0 51).
+
+Example few_peers_needed :
+  few_peers cfg_many = false /\ servable cfg_many 1 = true
+  /\ all_done (phase_one cfg_many sched_many) = true
+  /\ failed_heights (phase_one cfg_many sched_many) = [1%Z]
+  /\ spec_delivers cfg_many (task_log cfg_many sched_many [1%Z]) = false.
 Proof. repeat split; vm_compute; reflexivity. Qed.
 
 Example steps_example :
-  steps_taken cfg_lost (init_job cfg_lost) (init_state (init_job cfg_lost) (heights cfg_lost)) sched_lost = 208.
+  steps_taken cfg_lost (init_job cfg_lost) (init_state (init_job cfg_lost) (heights cfg_lost)) sched_lost = 112.
 Proof. vm_compute. reflexivity. Qed.
